@@ -100,9 +100,14 @@ def execute(case):
   nodes = reachable_buildables(root)
   want = [n for n in nodes if matches(n, target, ms, btype)]
   obs = {'op': case['op'], 'n_nodes': len(nodes), 'n_match': len(want)}
+  req, enc = graphs.encode(root)
+  name_of = graphs.unique_fn_names(enc, req)
+  req.update({'p': 'graph', 'q': ['select'],
+              'matcher': graphs.matcher_request(enc, target, ms, btype, name_of)})
   sel = selectors.select(root, target, match_subclasses=ms, buildable_type=btype, check_nonempty=False)
   try:
     got = list(sel)
+    obs['m_select'] = sorted(enc.ids.get(id(n), -1) for n in got)
     obs['iter_exact'] = sorted(map(id, got)) == sorted(map(id, want))
     obs['iter_once'] = len(got) == len(set(map(id, got)))
   except Exception as e:
@@ -118,6 +123,9 @@ def execute(case):
     except Exception as e:
       obs['set_raised'] = type(e).__name__
     if obs['set_raised'] is None:
+      req['q'].append('select_set')
+      req['kvs'] = [[['a', 'p'], {'a': 'NEW1'}]]
+      obs['m_set'] = graphs.cfg_shapes(nodes, enc, name_of, [(lambda x: x is v, 'NEW1')])
       good = True
       for n in nodes:
         now = {k: id(x) for k, x in graphs.configured_args(n).items()}
@@ -143,7 +151,7 @@ def execute(case):
     common = sorted(common or [])
     if len(common) < 2:
       obs['op'] = 'iter'
-      return obs, None
+      return obs, req
     k1, k2 = common[-1], common[0]
     try:
       sel.set(**{k1: fresh, k2: v2})
@@ -151,6 +159,10 @@ def execute(case):
     except Exception as e:
       obs['set_raised'] = type(e).__name__
     if obs['set_raised'] is None:
+      req['q'].append('select_set')
+      req['kvs'] = [[['a', k1], {'a': 'NEW1'}], [['a', k2], {'a': 'NEW2'}]]
+      obs['m_set'] = graphs.cfg_shapes(nodes, enc, name_of,
+                                       [(lambda x: x is fresh, 'NEW1'), (lambda x: x is v2, 'NEW2')])
       good = True
       for n in nodes:
         now = {k: id(x) for k, x in graphs.configured_args(n).items()}
@@ -182,6 +194,20 @@ def execute(case):
     obs['root_matches'] = root_matches
     if obs['replace_raised'] is None:
       after_nodes = reachable_buildables(root)
+      req['q'].append('select_replace')
+      req['value'] = {'a': 'NEW1'}
+
+      def is_new(x, v=v):
+        if graphs.is_atom(x) or id(x) in enc.ids or type(x) is not type(v):
+          return False
+        try:
+          return x is v or bool(x == v)
+        except Exception:
+          return False
+      obs['m_replace'] = {
+          'shapes': graphs.cfg_shapes([n for n in after_nodes if id(n) in enc.ids], enc, name_of,
+                                      [(is_new, 'NEW1')]),
+          'root': graphs.shape_val(root, enc, [(is_new, 'NEW1')])}
       good = True
       why = None
       want_ids = set(map(id, want))
@@ -227,17 +253,39 @@ def execute(case):
             elif 0 <= key < len(sig) and sig[key][1] in ('po', 'pk'):
               p = sig[key]
             exp.append(targets.Dflt(p[0]) if p is not None and p[2] else fdl.NO_VALUE)
+    req['q'].append('tag_values')
+    req['tag'] = targets.tag_no(tag)
+    req['tag_sub'] = [[targets.tag_no(a), targets.tag_no(b)] for a in targets.TAGS for b in targets.TAGS
+                      if issubclass(a, b)]
     try:
       got = list(selectors.select(root, tag=tag, check_nonempty=False))
+      obs['m_tagvalues'] = sorted(json.dumps(None if x is fdl.NO_VALUE else graphs.shape_val(x, enc),
+                                             sort_keys=True) for x in got)
       obs['tagiter_exact'] = sorted(map(repr, got)) == sorted(map(repr, exp))
       obs['tagiter_n'] = len(exp)
     except Exception as e:
       obs['tagiter_raised'] = type(e).__name__
-  return obs, None
+  return obs, req
 
 
 def compare(real, model):
-  return []
+  if model is None:
+    return []
+  diffs = []
+  if 'm_select' in real and real['m_select'] != model.get('select'):
+    diffs.append(('select', real['m_select'], model.get('select')))
+  ns = graphs.norm_shapes
+  if 'm_set' in real and ns(real['m_set']) != ns(model.get('select_set')):
+    diffs.append(('select_set', real['m_set'], model.get('select_set')))
+  if 'm_replace' in real and (
+      ns(real['m_replace']['shapes']) != ns((model.get('select_replace') or {}).get('shapes'))
+      or real['m_replace']['root'] != (model.get('select_replace') or {}).get('root')):
+    diffs.append(('select_replace', real['m_replace'], model.get('select_replace')))
+  if 'm_tagvalues' in real:
+    mv = sorted(json.dumps(kv[1], sort_keys=True) for entry in model.get('tag_values', []) for kv in entry[1])
+    if mv != real['m_tagvalues']:
+      diffs.append(('tag_values', real['m_tagvalues'], mv))
+  return diffs
 
 
 def oracle(case, real):
